@@ -135,6 +135,9 @@ DoLd ==
     IF ~AddrOK(I.a, I.imm) \/ a % 4 # 0 \/ a \notin DOMAIN M \/ (I.w = 2 /\ (a + 4) \notin DOMAIN M) \/ I.a \in tR
     THEN Fail("load from an address outside the structure and the stack frame, misaligned, or secret-dependent") /\ Stop
          /\ UNCHANGED <<tst>>
+    ELSE IF I.w = 2 /\ a \notin StackAddrs
+    THEN Fail("doubleword load from the state structure: its members are 32-bit words, so it is only 4-byte aligned (the stack is 16-byte aligned)") /\ Stop
+         /\ UNCHANGED <<tst>>
     ELSE LET lo == M[a]
              v  == IF I.w = 2 THEN lo \o M[a + 4]
                    ELSE IF XL = 4 THEN (IF I.sx = 1 THEN SextW(lo \o <<0, 0>>) ELSE lo \o <<0, 0>>)
